@@ -122,7 +122,9 @@ def executables_in(path) -> tp.Iterable[str]:
         func = _executables_in_posix
     try:
         yield from func(path)
-    except PermissionError:
+    except OSError:
+        # PermissionError, or the directory vanished (FileNotFoundError) or
+        # was replaced by a file (NotADirectoryError) since it was checked
         return
 
 
